@@ -363,6 +363,42 @@ def p_itertools_tuples(I, n, pos, kw):
     return Seq([Seq(list(t), "tuple") for t in f(items, k)], "list")
 
 
+@prim("dataclasses.replace")
+def p_dc_replace(I, n, pos, kw):
+    """replace(obj, **changes): a new instance built from obj's constructor fields with the changes applied (the generated
+    __init__, and with it __post_init__, runs again)"""
+    o = pos[0] if pos else None
+    if not (isinstance(o, ObjV) and o.cls and getattr(o, "record", None)):
+        return I.unknown("prim:dataclasses.replace", n)
+    args = {k: o.attrs[k] for k in o.record[1]}
+    for k, v in kw.items():
+        if k not in args:
+            return I.unknown("prim:dataclasses.replace-field", n)
+        args[k] = v
+    return I.construct(o.cls, [], args, n)
+
+
+@prim("builtins.object.__setattr__")
+def p_object_setattr(I, n, pos, kw):
+    if len(pos) == 3 and isinstance(pos[1], StrV):
+        I.set_attribute(pos[0], pos[1].s, pos[2], n)
+        return NoneV()
+    I.lose("object.__setattr__ with a name that is not a constant string", n)
+    return I.unknown("setattr-dynamic-name", n)
+
+
+@method("_replace")
+def m_nt_replace(I, n, recv, pos, kw):
+    if isinstance(recv, ObjV) and recv.cls and getattr(recv, "record", None):
+        args = {k: recv.attrs[k] for k in recv.record[1]}
+        for k, v in kw.items():
+            if k not in args:
+                return I.unknown("_replace-field", n)
+            args[k] = v
+        return I.construct(recv.cls, [], args, n)
+    return I.unknown("method:_replace", n)
+
+
 @prim("functools.partial")
 def p_partial(I, n, pos, kw):
     """partial(f, *args, **kw): a callable that remembers them"""
